@@ -638,6 +638,18 @@ def oracle(ctx, intensive: bool = False, hints: List[Dict[str, Any]] = ()) -> C.
             run_spec(P, s, ["numba", "cuda"], cuda, stats)
     else:
         P.notes.append("CUDA backend not exercised (simulator worker unavailable)")
+    # 0b. order −1 through the single-bin entry point, auto and cross, every backend, on records with an offset: the raw-windowed-segment reference
+    for i in range(ctx.scale(6, 24) * mult):
+        if enough():
+            break
+        s = make_spec("single", off + 2 * i, cs())
+        s["o"]["order"] = -1
+        s["Tnext"] = [float(s["Tnext"][-1])]
+        s["cross"] = bool(i % 2)
+        s["kind"] = ["offset", "drift"][(i // 2) % 2]
+        s["L"] = max(int(s["L"]), 2 + i % 7)
+        s["N"] = max(min(s["N"], 1200), s["L"])
+        run_spec(P, s, BACKENDS, None, stats)
     # 1. every L in 1..8 (and some larger) through compute_single_bin, orders 0..2, auto and cross
     n_single = ctx.scale(96, 720) * mult
     for i in range(n_single):
@@ -667,6 +679,13 @@ def oracle(ctx, intensive: bool = False, hints: List[Dict[str, Any]] = ()) -> C.
         s["o"]["order"] = -1
         s["Tnext"] = [float(s["Tnext"][-1])]
         s["N"] = min(s["N"], 1200)
+        if i % 4 == 0:
+            # single-bin entry point (its own kernel dispatch): `off + i` is even there, so auto/cross is set explicitly; records with a segment mean
+            # (offset / drift), so that a mean-removing kernel reached by mistake cannot pass for the raw estimate
+            s["cross"] = bool((i // 4) % 2)
+            s["kind"] = ["offset", "drift", "noise"][(i // 8) % 3]
+            s["L"] = max(int(s["L"]), 2 + (i // 4) % 7)
+            s["N"] = max(s["N"], s["L"])
         run_spec(P, s, BACKENDS, None, stats)
     # 4. state: repeated compute on one analyzer, record untouched
     for i in range(ctx.scale(3, 12)):
